@@ -874,7 +874,7 @@ def ext_goal(goal):
     return g if changed[0] else None
 
 
-def verify_function(prog: Program, reg: Registry, qualname: str, only_serves=None, both=False):
+def verify_function(prog: Program, reg: Registry, qualname: str, only_serves=None, both=False, part=None):
     """Returns a JSON-serialisable report for one function."""
     rep = {"function": qualname, "status": "ok", "obligations": [], "error": None}
     t0 = time.time()
@@ -903,6 +903,10 @@ def verify_function(prog: Program, reg: Registry, qualname: str, only_serves=Non
         rep["wall_s"] = round(time.time() - t0, 3)
         return rep
     todo = [ob for ob in obligations if only_serves is None or (set(ob.serves) & set(only_serves))]
+    rep["n_selected"] = len(todo)
+    if part is not None:
+        i, n = part
+        todo = todo[i::n]
 
     def one(ob):
         r = discharge(reg, ob, both=both)
